@@ -3,6 +3,7 @@ output-directory spellings, and runners for the real generators that capture the
 expanded code model right before the preservation pass."""
 import contextlib
 import copy
+import json
 import os
 import re
 import string
@@ -14,7 +15,14 @@ WORDS = ["Stop", "Open", "Play", "Pause", "Idle", "Run", "Load", "Eject", "Seek"
          "Alpha", "Beta", "Gamma", "Delta", "Next", "Prev", "Track", "Disc", "Drive", "Door", "Timer", "Tick",
          "Test", "Foo", "Bar", "Baz", "Qux", "Zed", "Controller", "Machine",
          # words the generators give a meaning to when they stand alone: as part of a name they are just letters
-         "None", "none", "Null", "True"]
+         "None", "none", "Null", "True",
+         # names that contain the word of a template tag (TransactionName contains actionName, SafeguardName guardName,
+         # PreventName eventName, EstateName stateName), names that begin like `none`, names that are a part of `none`
+         "TransactionName", "SafeguardName", "PreventName", "EstateName", "NonEmpty", "NoNetwork", "NoneLeft", "On", "No", "One"]
+
+# the harness used to give every kind of name its own fixed prefix (State..., Event..., On..., Guard...); real tables do not
+PREFIXES = {"State": ["State", "State", "St", ""], "Event": ["Event", "Event", "Ev", ""], "On": ["On", "On", "Do", "", ""],
+            "Guard": ["Guard", "Guard", "Has", "Can", ""]}
 
 BACKENDS = ["cpp", "cs", "py"]
 PRIM = {
@@ -92,9 +100,10 @@ def near_miss(r, w):
     return w[:i] + r.choice(pool) + w[i + 1:]
 
 
-def names(r, kind_prefix, n, taken):
+def names(r, kind, n, taken):
     out = []
     while len(out) < n:
+        kind_prefix = r.choice(PREFIXES.get(kind, [kind]))
         same = sorted(t for t in taken if isinstance(t, str) and t.startswith(kind_prefix) and len(t) > len(kind_prefix))
         if same and r.random() < 0.25:
             w = near_miss(r, r.choice(same))
@@ -231,6 +240,42 @@ def rand_sm_model(r, backend=None, big=False):
     return m
 
 
+def share_a_name(r, m, pair=None):
+    """the state-machine model with one name used in two roles (an event and a guard called DoorClosed, a state and an
+    action called Reset, ...): the roles live in different name spaces of the generated code, the USER tags of the
+    shipped templates must stay apart all the same.  (Not every such model is a valid program in every language: used
+    where the generated text, not its behaviour, is examined.)"""
+    roles = {"state": (0, 2), "event": (1,), "action": (3,), "guard": (4,)}
+    m = copy.deepcopy(m)
+    tt = m["tt"]
+    a, b = pair or r.sample(sorted(roles), 2)
+    na = sorted({row[c] for row in tt for c in roles[a] if row[c] and row[c].lower() != "none"})
+    nb = sorted({row[c] for row in tt for c in roles[b] if row[c] and row[c].lower() != "none"})
+    if not na and not nb:
+        return m
+    if not na:
+        a, b, na, nb = b, a, nb, na
+    x = r.choice(na)
+    if nb:
+        y = r.choice(nb)
+        for row in tt:
+            for c in roles[b]:
+                if row[c] == y:
+                    row[c] = x
+    else:
+        y = None
+        r.choice(tt)[roles[b][0]] = x        # the table has no name in that role yet: the shared one is its first
+    seen = set()
+    structs = []
+    for sname, mem in m["iface"]["structs"]:
+        sname = x if sname == y else sname
+        if sname not in seen:
+            seen.add(sname)
+            structs.append((sname, mem))
+    m["iface"]["structs"] = structs
+    return m
+
+
 # ---- protocol interfaces
 
 PROTO_PRIM = ["uint8", "uint16", "uint32", "uint64", "int8", "int16", "int32", "int64", "float", "double", "bool"]
@@ -343,6 +388,9 @@ class Runner:
         self.cgen = sys.modules["kojen.cgen"]
         self.captured = []
         self.capture_ok = False
+        # None: every generation builds its events / protocol interface anew.  A dict: the interface object of an unchanged
+        # description is built once and handed to every later generation - the way a user's script holds one Interface
+        self.itf_cache = None
         self._patch()
 
     def _patch(self):
@@ -381,9 +429,23 @@ class Runner:
             copy_other = bool(model.get("copy_other", False))      # kojen's own default is True: the support sources are copied next to the output
         self.captured = []
         self.captured_out = []
+        try:
+            return self._generate(G, model, outdir, copy_other)
+        except Exception as e:      # noqa
+            if not hasattr(e, "kojen_model"):
+                e.kojen_model = model       # (vcheck reports a generator that raises on a model as a violation with this input)
+            raise
+
+    def _generate(self, G, model, outdir, copy_other):
         with quiet():
             if model["kind"] == "sm":
-                itf = build_iface(self.kt, model["iface"])
+                if self.itf_cache is not None:
+                    key = json.dumps(model["iface"], sort_keys=True, default=str)
+                    if key not in self.itf_cache:
+                        self.itf_cache[key] = build_iface(self.kt, model["iface"])
+                    itf = self.itf_cache[key]
+                else:
+                    itf = build_iface(self.kt, model["iface"])
                 fn = {"cpp": G.StateMachine, "cs": G.StateMachine_CSHARP, "py": G.StateMachine_PYTHON}[model["backend"]]
                 ret = fn(outdir, copy.deepcopy(model["tt"]), itf, model["ns"], model["name"], model.get("dclspc", ""),
                          "auth", "grp", "brief", model.get("templatedir", ""), "", copy_other)
